@@ -3,6 +3,7 @@ package props
 import (
 	"fmt"
 	"os"
+	"reflect"
 	"strings"
 	"testing"
 	"unicode/utf8"
@@ -134,6 +135,12 @@ func c13NodeProperty(t *rapid.T) {
 	p := pm.(*sbom.Node)
 	if eq, ck := nodeEq(x, p); !eq || !ck {
 		t.Fatalf("permuting order-irrelevant collections changes equality/checksum (eq=%v ck=%v):\n x=%s\n p=%s", eq, ck, hx.RefKey(x, true), hx.RefKey(p, true))
+	}
+	// representation: nil versus empty collections carry the same content
+	en := proto.Clone(x).(*sbom.Node)
+	emptyNonNil(reflect.ValueOf(en))
+	if eq, ck := nodeEq(x, en); !eq || !ck {
+		t.Fatalf("a node does not equal itself with empty instead of absent collections (eq=%v ck=%v): %s", eq, ck, hx.RefKey(x, true))
 	}
 	// symmetric, agrees with checksum, sound w.r.t. the reference, on arbitrary pairs
 	for _, pr := range [][2]*sbom.Node{{x, y}, {y, x}, {x, p}, {p, x}} {
@@ -316,6 +323,9 @@ func c13ListProperty(t *rapid.T) {
 		p.Edges = append(p.Edges, &sbom.Edge{From: e.From, Type: e.Type, To: hx.Permute(t, "pt2", e.To)})
 	}
 	p.RootElements = hx.Permute(t, "pr", nl.RootElements)
+	if rapid.Bool().Draw(t, "emptyNonNil") {
+		emptyNonNil(reflect.ValueOf(p))
+	}
 	if !nl.Equal(p) || !p.Equal(nl) {
 		t.Fatalf("node list equality depends on order:\n a=%s\n b=%s\n refA=%s\n refB=%s", hx.DescribeNL(nl), hx.DescribeNL(p), hx.RefKey(nl, true), hx.RefKey(p, true))
 	}
